@@ -114,6 +114,7 @@ type replayFile struct {
 	NonzeroBefore  int                    `json:"nonzero_before_min"`
 	NonzeroAfter   int                    `json:"nonzero_after_min"`
 	ReplayVerified bool                   `json:"replay_verified_in_fresh_process"`
+	Generate       bool                   `json:"generate_mode"` // no choice list: re-execute (seed, run) in generate mode
 }
 
 type knownFinding struct {
@@ -264,10 +265,19 @@ func buildWorker(dir string, race bool) string {
 	return out
 }
 
+type crashInfo struct {
+	desc   string
+	family string
+	run    uint64
+	race   bool
+	known  bool // family/run could be determined
+}
+
 type batch struct {
 	results []*workerResult
 	sigs    map[uint64]struct{}
 	crashes []string
+	crashAt []crashInfo
 }
 
 // runWorkers runs W workers over run indices [0, runs) and merges results.
@@ -327,6 +337,13 @@ func runWorkers(bin, dir, prop string, seed uint64, runs uint64, tc tierCfg, W i
 					tail = tail[len(tail)-3000:]
 				}
 				b.crashes = append(b.crashes, fmt.Sprintf("worker %d (%s) died: %v; last progress: %s; errors: %v; output tail:\n%s", w, kind, err, strings.TrimSpace(string(p)), r.HarnessErrs, tail))
+				ci := crashInfo{desc: tail, race: race}
+				if f := strings.Fields(string(p)); len(f) == 2 {
+					if k, e := strconv.ParseUint(f[1], 10, 64); e == nil {
+						ci.family, ci.run, ci.known = f[0], k, true
+					}
+				}
+				b.crashAt = append(b.crashAt, ci)
 			}
 			if rerr == nil {
 				b.results = append(b.results, &r)
@@ -775,9 +792,46 @@ func cmdCheck(prop, tier string) int {
 	// on in a fresh process; a reproducible death is a violation class "fatal"
 	// or "hang"; a non-reproducible one is harness trouble.
 	fatalViols := 0
-	for _, c := range crashes {
-		fmt.Println("WORKER-DEATH", firstLine(c))
+	crashesUnexplained := 0
+	var unexplained []string
+	seenFatal := map[string]bool{}
+	for _, ci := range append(append([]crashInfo(nil), bp.crashAt...), br.crashAt...) {
+		if !ci.known {
+			crashesUnexplained++
+			unexplained = append(unexplained, ci.desc)
+			fmt.Println("WORKER-DEATH (run unknown)", firstLine(ci.desc))
+			continue
+		}
+		bin := binPlain
+		if ci.race {
+			bin = binRace
+		}
+		// re-run the run the worker died on, alone, in a fresh process, with a generous watchdog
+		died, class, out := rerunSingle(bin, dir, prop, seed, ci.family, ci.run, ci.race, 3*tc.RunMS)
+		if !died {
+			crashesUnexplained++
+			unexplained = append(unexplained, ci.desc)
+			fmt.Printf("WORKER-DEATH not reproducible alone: family=%s run=%d: %s\n", ci.family, ci.run, firstLine(ci.desc))
+			continue
+		}
+		site := fatalSite(out)
+		key := class + "|" + site
+		if seenFatal[key] {
+			continue
+		}
+		seenFatal[key] = true
+		fatalViols++
+		rf := replayFile{Format: 1, Property: prop, Family: ci.family, Seed: seed, Run: ci.run, Build: map[bool]string{true: "race", false: "plain"}[ci.race],
+			Violation: violation{Class: class, Site: site, Msg: tailStr(out, 3000)}, Tree: tree, Generate: true, ReplayVerified: true}
+		rdir := filepath.Join(verifDir, "replays", prop)
+		os.MkdirAll(rdir, 0755)
+		path := filepath.Join(rdir, fmt.Sprintf("%s-%s-s%d-r%d.json", ci.family, sanitize(class+"-"+site), seed, ci.run))
+		data, _ := json.MarshalIndent(rf, "", " ")
+		os.WriteFile(path, data, 0644)
+		fmt.Printf("VIOLATION property=%s replay=%s\n", prop, path)
+		fmt.Printf("  class=%s site=%s family=%s run=%d (the worker process dies or hangs on this run; reproduced alone in a fresh process)\n", class, site, ci.family, ci.run)
 	}
+	crashes = unexplained
 
 	sort.Slice(viols, func(i, j int) bool {
 		if viols[i].Violation.Class != viols[j].Violation.Class {
@@ -832,6 +886,28 @@ func cmdCheck(prop, tier string) int {
 				rf.Decoded = best.Decoded
 				rf.Violation = best.Violation
 				rf.TraceHash = best.TraceHash
+			} else if v.Violation.Class == "data-race" {
+				// The race detector keeps a bounded access history per memory cell; whether
+				// an old access is still remembered depends on heap layout, which differs
+				// between the batch process and a fresh one. A report is never invented,
+				// so it stands; try again accepting any racing pair of the same run.
+				confirmed := false
+				for try := 0; try < 3 && !confirmed; try++ {
+					rr, e := replayOnce(bin, dir, race, v.Family, v.Run, v.Choices, fmt.Sprintf("confirm%d", try))
+					if e == nil && rr != nil {
+						for i := range rr.Violations {
+							if rr.Violations[i].Violation.Class == "data-race" {
+								confirmed = true
+								rf.Violation = rr.Violations[i].Violation
+								rf.TraceHash = rr.Violations[i].TraceHash
+							}
+						}
+					}
+				}
+				rf.ReplayVerified = confirmed
+				if !confirmed {
+					fmt.Printf("NOTE data race at %s was reported by the race detector in the batch process but not again in isolation (bounded shadow history); reported with the original report\n", v.Violation.Site)
+				}
 			} else {
 				fmt.Printf("HARNESS-ERROR violation %s at %s (family %s run %d) did not reproduce in a fresh process: %v\n", v.Violation.Class, v.Violation.Site, v.Family, v.Run, err)
 				herrs = append(herrs, "non-reproducible violation "+key)
@@ -909,7 +985,7 @@ func cmdCheck(prop, tier string) int {
 	os.MkdirAll(filepath.Join(verifDir, "evidence"), 0755)
 	data, _ := json.MarshalIndent(ev, "", " ")
 	os.WriteFile(filepath.Join(verifDir, "evidence", prop+".json"), data, 0644)
-	fmt.Printf("SUMMARY property=%s tier=%s runs=%d distinct_nontrivial=%d violations_new=%d known=%d wall=%.1fs (build %.1fs)\n", prop, tier, agg.Evaluations, len(sigs), newViol, len(knownSeen), wall, buildS)
+	fmt.Printf("SUMMARY property=%s tier=%s runs=%d distinct_nontrivial=%d violations_new=%d known=%d wall=%.1fs (build %.1fs)\n", prop, tier, agg.Evaluations, len(sigs), newViol+fatalViols, len(knownSeen), wall, buildS)
 
 	if len(herrs) > 0 || len(crashes) > 0 {
 		for i, h := range herrs {
@@ -956,6 +1032,16 @@ func cmdReplay(prop, path string) int {
 	defer os.RemoveAll(dir)
 	race := rf.Build == "race"
 	bin := buildWorker(dir, race)
+	if rf.Generate {
+		died, class, out := rerunSingle(bin, dir, prop, rf.Seed, rf.Family, rf.Run, race, 3*props[prop].Quick.RunMS)
+		if died && class == rf.Violation.Class {
+			fmt.Printf("VIOLATION property=%s replay=%s\n", prop, path)
+			fmt.Printf("  class=%s site=%s\n", class, fatalSite(out))
+			return 1
+		}
+		fmt.Printf("REPLAY no %s (process finished normally)\n", rf.Violation.Class)
+		return 0
+	}
 	r, err := replayOnce(bin, dir, race, rf.Family, rf.Run, rf.Choices, "replay")
 	if err != nil {
 		die2("replay: %v", err)
@@ -964,6 +1050,13 @@ func cmdReplay(prop, path string) int {
 		die2("replay: %s", r.HarnessErrs[0])
 	}
 	vo, ok := sameViolation(r, rf.Violation.Class, rf.Violation.Site)
+	if !ok && rf.Violation.Class == "data-race" {
+		for i := range r.Violations {
+			if r.Violations[i].Violation.Class == "data-race" {
+				vo, ok = &r.Violations[i], true
+			}
+		}
+	}
 	if !ok {
 		if len(r.Violations) > 0 {
 			fmt.Printf("REPLAY different violation: class=%s site=%s (expected class=%s site=%s)\n", r.Violations[0].Violation.Class, r.Violations[0].Violation.Site, rf.Violation.Class, rf.Violation.Site)
@@ -1041,4 +1134,64 @@ func cmdDeterminism(args []string) int {
 		return 2
 	}
 	return 0
+}
+
+// rerunSingle executes one run alone. died=true if the process exits
+// abnormally (fatal error, watchdog) again.
+func rerunSingle(bin, dir, prop string, seed uint64, family string, run uint64, race bool, runMS int) (died bool, class string, out string) {
+	outf := filepath.Join(dir, fmt.Sprintf("rerun-%s-%d.json", family, run))
+	args := []string{"-prop", prop, "-fam", family, "-seed", strconv.FormatUint(seed, 10), "-from", strconv.FormatUint(run, 10), "-n", "1", "-out", outf, "-runms", strconv.Itoa(runMS)}
+	env := append(os.Environ(), "GOMAXPROCS=1")
+	if race {
+		rl := filepath.Join(dir, "racelog-rerun")
+		args = append(args, "-racelog", rl)
+		env = append(env, "GORACE=halt_on_error=0 exitcode=0 suppress_equal_stacks=0 suppress_equal_addresses=0 log_path="+rl+" history_size=3")
+	}
+	cmd := exec.Command(bin, args...)
+	cmd.Env = env
+	cmd.Dir = dir
+	var so bytes.Buffer
+	cmd.Stdout = &so
+	cmd.Stderr = &so
+	err := cmd.Run()
+	var r workerResult
+	if b, e := os.ReadFile(outf); e == nil {
+		json.Unmarshal(b, &r)
+	}
+	os.Remove(outf)
+	os.Remove(outf + ".sigs")
+	if err == nil && r.Done {
+		return false, "", ""
+	}
+	class = "fatal-error"
+	if wd, e := os.ReadFile(outf + ".watchdog"); e == nil {
+		os.Remove(outf + ".watchdog")
+		class = "hang"
+		return true, class, string(wd) + "\n" + so.String()
+	}
+	return true, class, so.String()
+}
+
+// fatalSite extracts the first gmsm frame from a Go crash dump.
+func fatalSite(out string) string {
+	for _, ln := range strings.Split(out, "\n") {
+		t := strings.TrimSpace(ln)
+		if strings.HasPrefix(t, "github.com/tjfoc/gmsm/") && !strings.HasPrefix(t, "github.com/tjfoc/gmsm/verifsim/") {
+			if i := strings.LastIndex(t, "("); i > 0 {
+				t = t[:i]
+			}
+			return strings.TrimPrefix(t, "github.com/tjfoc/gmsm/")
+		}
+	}
+	if strings.Contains(out, "WATCHDOG") {
+		return "watchdog"
+	}
+	return "unknown"
+}
+
+func tailStr(s string, n int) string {
+	if len(s) > n {
+		return s[len(s)-n:]
+	}
+	return s
 }
